@@ -3,7 +3,9 @@
    source by the translator on every run, so these are re-proved against what the
    code says now. Finite domain: each proof is a computation over the generated
    tables lifted to all names / atoms by Tables/OpTablesProofs.v. *)
+From Coq Require Import String.
 From CV Require Import Base.Prelude Gen.OpTables Tables.OpTablesModel Tables.OpTablesProofs.
+Open Scope string_scope. Open Scope N_scope.
 
 (* every classic (name, opcode) is the modern compiler's / stepper's (name, opcode) *)
 Theorem C20_classic_names_are_modern :
